@@ -73,6 +73,10 @@ def cast(x, y):
         if isinstance(x, int) and isinstance(y, float):
             raise TypeError("Cannot cast value from float to int")
 
+        # y can be an array holding a single value (0d or 1d)
+        if isinstance(y, np.ndarray) and y.size == 1:
+            y = y.ravel()[0]
+
         ycast = type(x)(y)
 
     else:
